@@ -14,4 +14,12 @@ extern size_t verif_stdio_cap;            /* capacity of a stdio buffer (symboli
 extern size_t verif_pending_stdout;       /* bytes sitting in stdout's user-space buffer */
 extern unsigned long verif_sigmask, verif_sigmask0; extern int verif_sig_disposition_changed;   /* ghost: blocked-signal set now / at entry */
 #define VERIF_ASSERT_SIGNALS_UNTOUCHED() __CPROVER_assert(verif_sigmask == verif_sigmask0 && !verif_sig_disposition_changed, "output: the signal mask and the signal handlers are as the caller left them (for every mask the caller may have)")
+typedef struct { int in_use, std, fd, append, failed, nonblock; size_t pending, cap; } vstream_t;
+#define NS 5
+#define vs verif_vs
+extern vstream_t vs[NS]; extern int verif_sock_fd, verif_sock_nonblock, verif_sock_open, verif_nsend; extern const void *verif_sigact_saved;
+extern int __CPROVER_errno;
+/* everything the effect models may write, for the assigns clause of an output's contract */
+#define VERIF_EFFECTS_FRAME verif_ev, verif_nev, verif_fd_open, verif_content_ok, verif_pending_stdout, verif_vs, verif_sock_fd, verif_sock_nonblock, verif_sock_open, verif_nsend, \
+  verif_sigmask, verif_sig_disposition_changed, verif_sigact_saved, verif_str, verif_nstr, verif_snprintf_truncated, __CPROVER_errno
 void verif_effects_init(const char *msg, size_t len, int fail_mode);
